@@ -236,6 +236,7 @@ func genC02(w *World, res *CheckResult) {
 		}
 	}
 	genFoldUnary(w, res)
+	genFoldArray(w, res)
 	genInRange(w, res)
 	genInArray(w, res)
 	genConstRange(w, res)
@@ -256,6 +257,84 @@ func init() {
 // c02Replay: compiles F(a op b), F taking the literal type of the cell, with
 // the optimizer on and off, and compares the results on the real library.
 func c02Replay(o *Obligation, dir string) (string, bool) {
+	if strings.HasPrefix(o.Name, "optimizer.constExpr[") {
+		typ := o.Meta["type"]
+		if typ == "" || typ == "untyped" || typ == "interface" {
+			typ = "int"
+		}
+		src := `package expr_test
+
+import (
+	"fmt"
+	"testing"
+
+	"github.com/antonmedv/expr"
+)
+
+// replay of obligation ` + o.Name + `
+func TestVerifReplay(t *testing.T) {
+	env := map[string]interface{}{"F": func(x ` + typ + `) ` + typ + ` { return x }}
+	for _, code := range []string{"F(5)", "F(5) + F(1)", "F(0)"} {
+		run := func(constExpr bool) string {
+			opts := []expr.Option{expr.Env(env)}
+			if constExpr {
+				opts = append(opts, expr.ConstExpr("F"))
+			}
+			p, err := expr.Compile(code, opts...)
+			if err != nil {
+				return "compile error"
+			}
+			out, err := expr.Run(p, env)
+			if err != nil {
+				return "run error"
+			}
+			return fmt.Sprintf("%T(%v)", out, out)
+		}
+		on, off := run(true), run(false)
+		if on != off {
+			t.Fatalf("VIOLATED: %s gives %s with ConstExpr(F) and %s without", code, on, off)
+		}
+	}
+	t.Logf("clause holds on these literals")
+}
+`
+		return runReplay(o, dir, ".", src)
+	}
+	if strings.HasPrefix(o.Name, "optimizer.fold[array]") {
+		src := `package expr_test
+
+import (
+	"fmt"
+	"testing"
+
+	"github.com/antonmedv/expr"
+)
+
+// replay of obligation ` + o.Name + `
+func TestVerifReplay(t *testing.T) {
+	env := map[string]interface{}{"arr": []interface{}{1, 2, 3}, "ints": []int{1, 2, 3}, "strs": []interface{}{"a", "b"}}
+	for _, code := range []string{"[1,2,3] == arr", "arr == [1,2,3]", "[1,2,3] == ints", "['a','b'] == strs", "[1,2,3]"} {
+		run := func(opt bool) string {
+			p, err := expr.Compile(code, expr.Env(env), expr.Optimize(opt))
+			if err != nil {
+				return "compile error"
+			}
+			out, err := expr.Run(p, env)
+			if err != nil {
+				return "run error"
+			}
+			return fmt.Sprintf("%T(%v)", out, out)
+		}
+		on, off := run(true), run(false)
+		if on != off {
+			t.Fatalf("VIOLATED: %s gives %s with the optimizer and %s without", code, on, off)
+		}
+	}
+	t.Logf("clause holds on these inputs")
+}
+`
+		return runReplay(o, dir, ".", src)
+	}
 	if strings.HasPrefix(o.Name, "optimizer.constRange/") {
 		src := `package expr_test
 
